@@ -137,7 +137,10 @@ class Ctx:
             os.pathsep.join([os.path.join(SPEC, "lib")] + [os.path.join(SPEC, d) for d in sorted(os.listdir(SPEC)) if d != "lib"]), heap)
         if deque:
             jopts += " -Dtlc2.tool.queue.IStateQueue=StateDeque"
-        e = {"JAVA_TOOL_OPTIONS": jopts}
+        # JDK_JAVA_OPTIONS is read by the launcher, which sizes the main thread's stack from it: TLC pre-evaluates
+        # constant definitions (tables built by deep recursion) on the main thread and silently skips the caching
+        # when that overflows the stack
+        e = {"JAVA_TOOL_OPTIONS": jopts, "JDK_JAVA_OPTIONS": "-Xss1g"}
         if env:
             e.update(env)
         cmd = ["timeout", str(timeout), "tlc", "-workers", str(workers), "-metadir", meta, "-cleanup",
